@@ -100,3 +100,18 @@ reg("C18",
     "Untouched input (nodes, edges and their data), lattice/bounds for all phi, exact values at phi=0 and phi=1 after "
     "in-place rewirings of the same graph object, and the Binomial(M,phi) law on stars (p<1e-9). " + EXPL,
     "distributional clause is statistical")
+
+reg("C15",
+    "exhaustive enumeration of all connected atlas graphs x focal vertices with exact polynomial arguments (polynomial identity), plus Hypothesis-generated call histories on a shared evaluator with exact Fractions",
+    "The automated equation is called with Poly arguments (phi and one variable per vertex) and the returned "
+    "polynomial must be identical to the brute-force expectation over all 2^|E| edge subsets; histories on one "
+    "evaluator (distinctly named motifs, changing phi/u/focal) must agree with the oracle at every step. " + EXPL,
+    "motifs up to 6 vertices exhaustively (the equation code itself is exponential), larger cliques/cycles/trees in histories only")
+
+reg("C16",
+    "exhaustive tables compared exactly (polynomial identity / integers) with brute-force and recurrence references; Hypothesis-generated call histories and counter inputs",
+    "clique_equation and chordless_cycle_equation are evaluated with polynomial variables and must equal the exact "
+    "expectation on K_tau / C_n; Q and QQ must equal the reference connected-graph counts over whole (n,k) ranges; "
+    "the counter must equal a union-find reference on generated substrates/subsets/k; clique call histories with "
+    "repeated and permuted neighbour values must stay exact. " + EXPL,
+    "reference recurrence cross-checked by brute force for n<=5 (quick) / 6 in the same run")
